@@ -257,6 +257,208 @@ func c12IsDenyAllAssign(x *X, st ast.Stmt, allowTag string) bool {
 	return false
 }
 
+// c12ReqParam: index and name of the first parameter of type *<pkg>.Request, or -1.
+func c12ReqParam(fd *ast.FuncDecl) (int, string) {
+	i := 0
+	if fd.Type.Params == nil {
+		return -1, ""
+	}
+	for _, p := range fd.Type.Params.List {
+		isReq := false
+		if st, ok := p.Type.(*ast.StarExpr); ok {
+			if se, ok := st.X.(*ast.SelectorExpr); ok && se.Sel.Name == "Request" {
+				isReq = true
+			}
+		}
+		if len(p.Names) == 0 {
+			i++
+			continue
+		}
+		for _, n := range p.Names {
+			if isReq {
+				return i, n.Name
+			}
+			i++
+		}
+	}
+	return -1, ""
+}
+
+// c12RequestReads collects what fd reads of its *http.Request parameter, as event names independent of spelling:
+// "RemoteAddr" / "field:<name>" (a field), "Header.<method>:<key>" (r.Header.Get/Values/… with a literal key, "?" when
+// the key is computed), "Header[]:<key>", "<method>()" (a method of the request), "pass:<callee>" (handed to a function
+// outside the package or to an interface method), "other" (anything else: stored, compared, returned, …). Local
+// aliases (`req := r`, `h := r.Header`) are followed, and so are unexported functions of the same package the
+// request (or its header) is handed to.
+func c12RequestReads(x *X, dir string, fd *ast.FuncDecl, param string, kind string, depth int, out map[string]bool) {
+	if fd == nil || fd.Body == nil || depth > 4 {
+		out["other"] = true
+		return
+	}
+	names := map[string]string{param: kind}
+	var stack []ast.Node
+	parent := func(k int) ast.Node {
+		if len(stack) > k {
+			return stack[len(stack)-1-k]
+		}
+		return nil
+	}
+	lit := func(args []ast.Expr) string {
+		if len(args) > 0 {
+			if s, ok := x.strLit(args[0]); ok {
+				return s
+			}
+		}
+		return "?"
+	}
+	aliasOf := func(as *ast.AssignStmt, rhs ast.Expr) string {
+		if as.Tok != token.DEFINE {
+			return ""
+		}
+		for i, r := range as.Rhs {
+			if r == rhs && i < len(as.Lhs) && len(as.Lhs) == len(as.Rhs) {
+				if id, ok := as.Lhs[i].(*ast.Ident); ok {
+					return id.Name
+				}
+			}
+		}
+		return ""
+	}
+	// uses of a header value h (an expression): h.M(lit), h[lit], alias
+	headerUse := func(h ast.Expr, k int) {
+		switch p := parent(k).(type) {
+		case *ast.SelectorExpr:
+			if c, ok := parent(k + 1).(*ast.CallExpr); ok && c.Fun == ast.Expr(p) {
+				out["Header."+p.Sel.Name+":"+lit(c.Args)] = true
+				return
+			}
+		case *ast.IndexExpr:
+			if p.X == h {
+				if s, ok := x.strLit(p.Index); ok {
+					out["Header[]:"+s] = true
+					return
+				}
+			}
+		case *ast.AssignStmt:
+			if a := aliasOf(p, h); a != "" {
+				names[a] = "hdr"
+				return
+			}
+		case *ast.CallExpr:
+			for j, a := range p.Args {
+				if a == h {
+					if nm := c12Callee(p); nm != "" && !ast.IsExported(nm) {
+						if callee := x.anyFuncDecl(dir, nm); callee != nil {
+							if pn := c12ParamName(callee, j); pn != "" {
+								c12RequestReads(x, dir, callee, pn, "hdr", depth+1, out)
+								return
+							}
+						}
+					}
+				}
+			}
+		}
+		out["Header:other"] = true
+	}
+	var visit func(n ast.Node) bool
+	visit = func(n ast.Node) bool {
+		if n == nil {
+			stack = stack[:len(stack)-1]
+			return true
+		}
+		if id, ok := n.(*ast.Ident); ok && names[id.Name] != "" {
+			k := names[id.Name]
+			// not the selected name of x.<id>, not the defining occurrence
+			if se, ok := parent(0).(*ast.SelectorExpr); ok && se.Sel == id {
+				stack = append(stack, n)
+				return true
+			}
+			if as, ok := parent(0).(*ast.AssignStmt); ok {
+				for _, l := range as.Lhs {
+					if l == ast.Expr(id) {
+						stack = append(stack, n)
+						return true
+					}
+				}
+			}
+			if k == "hdr" {
+				headerUse(id, 0)
+			} else {
+				switch p := parent(0).(type) {
+				case *ast.SelectorExpr:
+					switch {
+					case p.Sel.Name == "Header":
+						headerUse(p, 1)
+					default:
+						if c, ok := parent(1).(*ast.CallExpr); ok && c.Fun == ast.Expr(p) {
+							out[p.Sel.Name+"()"] = true
+						} else if p.Sel.Name == "RemoteAddr" {
+							out["RemoteAddr"] = true
+						} else {
+							out["field:"+p.Sel.Name] = true
+						}
+					}
+				case *ast.CallExpr:
+					handled := false
+					for j, a := range p.Args {
+						if a == ast.Expr(id) {
+							handled = true
+							nm := c12Callee(p)
+							if nm != "" && !ast.IsExported(nm) {
+								if callee := x.anyFuncDecl(dir, nm); callee != nil {
+									if pn := c12ParamName(callee, j); pn != "" {
+										c12RequestReads(x, dir, callee, pn, "req", depth+1, out)
+										break
+									}
+								}
+							}
+							out["pass:"+nm] = true
+						}
+					}
+					if !handled {
+						out["other"] = true
+					}
+				case *ast.AssignStmt:
+					if a := aliasOf(p, id); a != "" {
+						names[a] = "req"
+					} else {
+						out["other"] = true
+					}
+				default:
+					out["other"] = true
+				}
+			}
+		}
+		stack = append(stack, n)
+		return true
+	}
+	ast.Inspect(fd.Body, visit)
+}
+
+// c12ParamName: the name of fd's j-th parameter ("" if unnamed / variadic tail / out of range).
+func c12ParamName(fd *ast.FuncDecl, j int) string {
+	i := 0
+	if fd.Type.Params == nil {
+		return ""
+	}
+	for _, p := range fd.Type.Params.List {
+		if len(p.Names) == 0 {
+			i++
+			continue
+		}
+		for _, n := range p.Names {
+			if i == j {
+				if _, variadic := p.Type.(*ast.Ellipsis); variadic {
+					return ""
+				}
+				return n.Name
+			}
+			i++
+		}
+	}
+	return ""
+}
+
 func init() {
 	register("C12", func(x *X) error {
 		x.UseNormalizedAST()
@@ -514,6 +716,35 @@ func init() {
 		x.defSortedStrList("ruleMapWriters", c12Keys(writers))
 		x.defSortedStrList("requestPathReachesRuleMapStore", onPath)
 		x.defBool("addTargetReachesRuleMapStore", reach["addTarget"])
+
+		// --- what the gate reads of the request: the decision functions look at the peer address, the
+		// X-Forwarded-For lines and (through the scheme) the credentials - at nothing else a client controls
+		reads := func(dir string, fd *ast.FuncDecl) []string {
+			out := map[string]bool{}
+			if i, nm := c12ReqParam(fd); i >= 0 {
+				c12RequestReads(x, dir, fd, nm, "req", 0, out)
+			} else {
+				x.fail("%s.%s has no *http.Request parameter", dir, fd.Name.Name)
+			}
+			return c12Keys(out)
+		}
+		if fd := x.funcDecl("route", "Target", "AccessDeniedHTTP"); fd != nil {
+			x.defSortedStrList("accessDeniedHTTPReads", reads("route", fd))
+		}
+		if fd := x.funcDecl("route", "Target", "Authorized"); fd != nil {
+			x.defSortedStrList("targetAuthorizedReads", reads("route", fd))
+		}
+		schemeReads := map[string]bool{}
+		for _, f := range x.files("auth") {
+			for _, d := range f.Decls {
+				if fd, ok := d.(*ast.FuncDecl); ok && fd.Name.Name == "Authorized" && fd.Recv != nil && fd.Body != nil {
+					for _, r := range reads("auth", fd) {
+						schemeReads[r] = true
+					}
+				}
+			}
+		}
+		x.defSortedStrList("schemeAuthorizedReads", c12Keys(schemeReads))
 
 		x.defNat("authSchemeTypes", uint64(schemes))
 		x.defSortedStrList("authSchemeFieldTypes", c12Keys(fieldTypes))
